@@ -390,8 +390,14 @@ func (m *passivationManager) trigger(expected *passivationEntry) {
 			return
 		}
 
-		entry.refreshDeadline()
-		cheaps.Push(&m.queue, entry)
+		// A Resume or Register that ran while the mutex was released for the passivation
+		// attempt has already put the entry back on the heap (with a fresh deadline).
+		// Pushing it again would leave two copies of the same entry in the heap while
+		// entry.index tracks only one of them.
+		if entry.index < 0 {
+			entry.refreshDeadline()
+			cheaps.Push(&m.queue, entry)
+		}
 		m.mu.Unlock()
 		m.notify()
 	}
